@@ -39,3 +39,16 @@ pub fn vshim_f64_to_string(f: f64) -> (r: String) ensures r@ == spec_f64_to_stri
 pub fn vshim_opt_str_is(a: Option<&str>, b: &str) -> (r: bool)
     ensures r == (a.is_some() && a.unwrap()@ == b@)
 { a == Some(b) }
+
+/// std: `String::with_capacity(n)` is the empty string
+#[verifier::external_body]
+pub fn vshim_string_with_capacity(n: usize) -> (r: String) ensures r@ == Seq::<char>::empty() { String::with_capacity(n) }
+/// std: `a += &b` / `a.push_str(&b)` on String
+#[verifier::external_body]
+pub fn vshim_push_str(a: &mut String, b: &str) ensures final(a)@ == old(a)@ + b@ { a.push_str(b) }
+/// std: `a + &b` on String
+#[verifier::external_body]
+pub fn vshim_concat(a: String, b: &str) -> (r: String) ensures r@ == a@ + b@ { a + b }
+/// std: String::is_empty / str::is_empty
+#[verifier::external_body]
+pub fn vshim_is_empty(a: &str) -> (r: bool) ensures r == (a@.len() == 0) { a.is_empty() }
